@@ -834,10 +834,11 @@ pub fn validate(file: &[u8], o: &ValidateOpts) -> Result<Validated, String> {
     chk("tile contents", h.n_contents, n_contents)?;
     // clustered flag
     if h.clustered == 1 {
-        let mut seen: HashSet<(u64, u32)> = HashSet::new();
+        // a back-reference is any entry starting at an offset that was used before (also with another length)
+        let mut seen: HashSet<u64> = HashSet::new();
         let mut max_end = 0u64;
         for e in &w.entries {
-            if seen.contains(&(e.offset, e.length)) {
+            if seen.contains(&e.offset) {
                 continue;
             }
             if e.offset < max_end {
@@ -846,7 +847,7 @@ pub fn validate(file: &[u8], o: &ValidateOpts) -> Result<Validated, String> {
                     e.tile_id, e.offset, max_end
                 ));
             }
-            seen.insert((e.offset, e.length));
+            seen.insert(e.offset);
             max_end = e.offset + u64::from(e.length);
         }
     }
